@@ -25,9 +25,11 @@ BUDGET = {"quick": (8, 400, 60), "thorough": (16, 6000, 900)}
 CONNECTIVES = ["All", "Any", "AtLeast", "AtMost", "Xor", "ExactlyOne", "XNor", "Imply", "Not"]
 MANDATORY = ["judged:truth-table:ctor", "judged:truth-table:json", "judged:truth-table:cicJE", "contract:plog.from_json",
              "contract:Imply.from_cicJE"] + ["count:connective:" + c for c in CONNECTIVES] + \
-            ["count:cicJE:" + r for r in ["REQUIRES_ALL", "REQUIRES_ANY", "ONE_OR_NONE", "FORBIDS_ALL", "REQUIRES_EXCLUSIVELY"]]
+            ["count:cicJE:" + r for r in ["REQUIRES_ALL", "REQUIRES_ANY", "ONE_OR_NONE", "FORBIDS_ALL", "REQUIRES_EXCLUSIVELY"]] + \
+            ["count:judged-although-errors()-nonempty", "count:json:AtMost-value-0"]
 NEGATING = {"Not", "Imply", "XNor", "AtMost"}
 LEAVES = ["a", "b", "c", "d", "e", "f", "g", "h"]
+COLLIDING = ["a", "b", "c", "ab", "bc", "abc", "1", "2", "12", "22", "a1", "1a"]
 
 
 # ------------------------------------------------------------------------------------------- JSON route
@@ -57,6 +59,8 @@ def to_json_dict(r, rng):
             d["value"] = r["value"]        # a missing value defaults to 1
     elif k == "AtMost":
         d.update(type="AtMost", value=r["value"])
+        if r["value"] == 0 and monitor.CTX is not None:
+            monitor.CTX.count("count:json:AtMost-value-0")
     else:
         d["type"] = k
     return d
@@ -232,6 +236,20 @@ def judge_table(ctx, model, ids, sem, route, witness):
     return bad is None
 
 
+def ast_well_formed(rec):
+    ids = [n["id"] for n in refmodel.recipe_nodes(rec) if n.get("id") and n["k"] not in ("var", "str")]
+    if len(ids) != len(set(ids)):
+        return False
+    for n in refmodel.recipe_nodes(rec):
+        if n["k"] in ("ref", "neg"):
+            return False
+        if n["k"] not in ("var", "str"):
+            keys = [("leaf", a["id"]) if a["k"] in ("var", "str") else ("node", json.dumps(a, sort_keys=True)) for a in n["args"]]
+            if len(keys) != len(set(keys)):
+                return False
+    return True
+
+
 def install(ctx):
     import sys
     monitor.attach(sys.modules["puan.logic.plog"], "from_json", fromjson_post, None, label="plog.from_json")
@@ -248,7 +266,18 @@ def gen_case(rng, tier, ctx, i):
     else:
         o = recipes.Opts(depth=rng.choice([2, 3, 4]), maxfan=rng.choice([3, 3, 5, 6]), nleaf=rng.choice([3, 4, 6, 8]), p_int=0, p_share=0, p_copy=0.05,
                          p_explicit=0.4, odd_ids=0)
-        rec = common.model_case(rng, tier, o)
+        pool = None
+        if rng.random() < 0.3:
+            # leaf ids whose concatenations coincide ('a'+'bc' == 'ab'+'c'): different sub-formulas then get the same generated id
+            pool = [{"k": "var", "id": x, "b": [0, 1]} for x in rng.sample(COLLIDING, rng.randint(3, 6))]
+            o.p_explicit = 0.15
+            o.p_copy = 0
+        rec = None
+        for _ in range(8):
+            r_ = recipes.gen_model(rng, o, pool=pool)
+            if recipes.refs_resolvable(r_):
+                rec = r_
+                break
         if rec is None:
             return None
     rec = json.loads(json.dumps(recipes.strip(rec)))
@@ -280,9 +309,16 @@ def run_case(case, ctx):
         else:
             m = ctx.call("constructors", recipes.fresh, rec)
             wit = {"recipe": rec}
-        if adapters.is_leaf(m) or adapters.validated(m) is None:
+        if adapters.is_leaf(m):
             ctx.count("not-validated:" + route)
             continue
+        if adapters.validated(m) is None:
+            # the statement does not ask for validation: a well formed formula (distinct arguments per connective, unique
+            # explicit ids, no sharing) must evaluate like its truth function even if two sub-formulas collide on a generated id
+            if not ast_well_formed(rec):
+                ctx.count("not-validated:" + route)
+                continue
+            ctx.count("count:judged-although-errors()-nonempty")
         for n in nodes:
             if n["k"] in CONNECTIVES:
                 ctx.count("count:connective:" + n["k"])
